@@ -1011,6 +1011,8 @@ func c27Body(x *explore.Ctx, e *c27Env, o c27Opts) {
 			e.fail(x, "two-sources-one-interface", "%s: a second source was opened on %s while the first was still open", where, dup)
 			return
 		}
+		// sources are closed in the manager's map iteration order: judge them in a fixed one
+		sort.Slice(closed, func(i, j int) bool { return closed[i].iface < closed[j].iface })
 		for _, s := range closed {
 			reason := "removed"
 			if _, stays := want[s.iface]; stays {
@@ -1143,6 +1145,7 @@ func c27Body(x *explore.Ctx, e *c27Env, o c27Opts) {
 		e.fail(x, "close-leaves-source-open", "after %v: Manager.Close leaves sources open on %v", e.hist, e.openIfaces())
 		return
 	}
+	sort.Slice(closed, func(i, j int) bool { return closed[i].iface < closed[j].iface })
 	for _, s := range closed {
 		if !c27CheckClosed(x, e, s, "shutdown", fmt.Sprintf("Manager.Close after %v", e.hist)) {
 			return
